@@ -269,6 +269,19 @@ func genC08(repo string) (string, error) {
 		return true
 	})
 	o.strList("replace_guards", guards, "builder.go planReplace: if-conditions, source order")
+	// full shape of the plan alternatives: loops, guards, which candidates reach comparePlan
+	planCalls := set("planReplace", "planPromotePeer", "planDemotePeer", "planRemovePeer", "planAddPeer",
+		"planReplaceLeaders", "comparePlan", "allowLeader", "IsEmpty")
+	for _, fn := range []string{"peerPlan", "planReplace", "planReplaceLeaders", "planPromotePeer", "planDemotePeer", "planRemovePeer", "planAddPeer"} {
+		if err := o.skeleton(f, "Builder", fn, "skel_"+fn, goast.SkelOpt{Calls: planCalls, Conds: true, Branches: true}); err != nil {
+			return "", err
+		}
+	}
+	fd, err = get("planReplace")
+	if err != nil {
+		return "", err
+	}
+	o.strList("replace_candidates", c08CallArgs(f, fd, "planReplaceLeaders"), "builder.go planReplace: the candidates handed to planReplaceLeaders, source order")
 	fd, err = get("prepareBuild")
 	if err != nil {
 		return "", err
